@@ -25,7 +25,7 @@ CONFIGS.append(dict(_cfg('g++', 3, 'c++20'), id='g++-O3-c++20-ndebug', extra=['-
 CONFIGS.append(dict(_cfg('clang++', 2, 'c++17', abacus=True), id='clang++-O2-c++17-abacus-ndebug', extra=['-DNDEBUG']))
 _BY = {c['id']: c for c in CONFIGS}
 
-QUICK = ['g++-O2-c++17', 'clang++-O2-c++20', 'g++-O0-c++17-abacus', 'g++-O3-c++20-ndebug', 'g++-Os-c++17']
+QUICK = ['g++-O2-c++17', 'clang++-O2-c++20', 'g++-O0-c++17-abacus', 'g++-O3-c++20-ndebug', 'g++-Os-c++17', 'clang++-O2-c++20-uchar']
 QUICK_SAN = QUICK + ['clang++-O1-c++17-san']
 THOROUGH = [c['id'] for c in CONFIGS if not c['san']]      # includes the -funsigned-char variations
 THOROUGH_SAN = [c['id'] for c in CONFIGS]
@@ -37,7 +37,7 @@ PROPS = {
     'C02': {'e1': CORE_E1},
     'C03': {'e1': CORE_E1},
     'C04': {'e1': CORE_E1},
-    'C06': {'e1': CORE_E1, 'quick_cfgs': QUICK + ['g++-O2-c++17-uchar']},
+    'C06': {'e1': CORE_E1, 'quick_cfgs': QUICK + ['g++-O2-c++17-uchar']},      # both compilers with -funsigned-char
     'C13': {'e1': dict(CORE_E1, unary={'quick': [('sqrt_abacus', 0, 1048576, 61, 1), ('sqrt_std', 0, 1048576, 67, 0)],
                                         'thorough': [('sqrt_abacus', 0, 1048576, 1, 1), ('sqrt_std', 0, 1048576, 1, 0)]})},
     'C15': {'e1': CORE_E1},
@@ -49,11 +49,12 @@ PROPS = {
     'C12': {'chunk': 4000, 'e1': {'unary': {'quick': [('asin', -65700, 65700, 17, 1), ('asin', -65699, 65700, 19, 0), ('acos', -65700, 65700, 17, 0)],
                                             'thorough': [('asin', -65700, 65700, 1, 1), ('asin', -65700, 65700, 1, 0),
                                                          ('acos', -65700, 65700, 1, 1), ('acos', -65700, 65700, 1, 0)]}}},
-    'C07': {'chunk': 20000, 'quick_cfgs': ['clang++-O1-c++17-san', 'g++-O2-c++20-san', 'clang++-O2-c++20'],
+    'C07': {'chunk': 20000, 'quick_cfgs': ['clang++-O1-c++17-san', 'g++-O2-c++20-san', 'clang++-O2-c++20', 'g++-O2-c++17-uchar'],
             'thorough_cfgs': [c['id'] for c in CONFIGS if c['san']] + ['g++-O2-c++17', 'clang++-O3-c++20', 'g++-O0-c++17-abacus']},
     'C08': {'chunk': 20000, 'xcfg': True, 'gen_as': 'C07', 'gen_tier': {'thorough': 'quick'},   # thorough = the full configuration matrix on the quick-size corpus
            
-            'quick_cfgs': ['g++-O2-c++17', 'clang++-O2-c++20', 'g++-O0-c++17-abacus', 'clang++-O0-c++2b', 'g++-O3-c++20', 'clang++-O1-c++17-abacus'],
+            'quick_cfgs': ['g++-O2-c++17', 'clang++-O2-c++20', 'g++-O0-c++17-abacus', 'clang++-O0-c++2b', 'g++-O3-c++20', 'clang++-O1-c++17-abacus',
+                           'g++-O2-c++17-uchar', 'g++-Os-c++17'],
             'thorough_cfgs': [c['id'] for c in CONFIGS if not c['san']]},
     # behaviour outside the listed properties (spec/FxContractXtra.tla); NOT registered in MANIFEST.json
     'X01': {'unclaimed': 'extra', 'chunk': 10000}, 'X02': {'unclaimed': 'extra'}, 'X03': {'unclaimed': 'extra'}, 'X04': {'unclaimed': 'extra'},
